@@ -36,6 +36,7 @@ type c25Case struct {
 	Insts []sysCase  `json:"instances"` // Video is ignored at cycle granularity
 	Order []int      `json:"order"`     // creation order
 	Sched []c25Slice `json:"schedule"`
+	Lazy  []bool     `json:"lazy,omitempty"` // instance i is created only just before its first slice, while the others are already running
 }
 
 type c25Inst struct {
@@ -179,11 +180,14 @@ func c25Run(c c25Case) (info c25Info, sig string, err error) {
 	}
 	// together
 	insts := make([]*c25Inst, n)
+	lazy := func(i int) bool { return i < len(c.Lazy) && c.Lazy[i] }
 	for _, i := range c.Order {
-		insts[i] = c25New(c.Insts[i])
+		if !lazy(i) {
+			insts[i] = c25New(c.Insts[i])
+		}
 	}
 	for i := range insts {
-		if insts[i] == nil {
+		if insts[i] == nil && !lazy(i) {
 			insts[i] = c25New(c.Insts[i])
 		}
 	}
@@ -194,6 +198,9 @@ func c25Run(c c25Case) (info c25Info, sig string, err error) {
 		if i != last {
 			info.Switches++
 			last = i
+		}
+		if insts[i] == nil {
+			insts[i] = c25New(c.Insts[i]) // created while the others are in the middle of their runs
 		}
 		insts[i].run(sl.Cycles)
 		snap := insts[i].snap()
@@ -207,7 +214,7 @@ func c25Run(c c25Case) (info c25Info, sig string, err error) {
 		seen[i]++
 		// the instances that did not run must not have moved either
 		for j := range insts {
-			if j != i && seen[j] > 0 {
+			if j != i && seen[j] > 0 && insts[j] != nil {
 				if sysDigest(insts[j].snap()) != pristine[j][seen[j]-1] {
 					return info, "idle-instance-changed", fmt.Errorf("instance %d changed while only instance %d was running (schedule step %d): %s [before vs after]", j, i, k, sysDiff(solo[j][seen[j]-1], insts[j].snap()))
 				}
@@ -405,7 +412,7 @@ func c25GenOrder(rt *rapid.T, n int) []int {
 
 func TestC25(t *testing.T) {
 	c := vf.New(t, "C25", "rapid cases of 2-3 instances (generated register-hammering programs on 7 cartridge types, or ROMs of the test corpus) created in a drawn order; "+
-		"(interleave) stepped on machine.M in a drawn schedule of 2-40 slices of 1-3000 machine cycles, every instance compared with its solo run after each of its slices and the idle instances checked for not having moved; "+
+		"(interleave) stepped on machine.M in a drawn schedule of 2-40 slices of 1-3000 machine cycles, each instance created either up front (in the drawn order) or only just before its first slice while the others are already running, every instance compared after each of its slices with the same instance run alone in a process of its own, and the idle instances checked for not having moved; "+
 		"(frames) real gameboy.New instances stepped frame by frame through runFrame in a drawn turn order, and (concurrent) each in its own goroutine, per-frame digests, samples and serial output compared with the solo run; thorough also runs the concurrent mode under the race detector. "+
 		"Non-trivial: at least two instances were accepted and the schedule switches instance at least twice. Distinct = hash of the case.")
 	defer c.Flush()
@@ -426,8 +433,15 @@ func TestC25(t *testing.T) {
 			}
 			return c25Slice{Inst: rapid.IntRange(0, n-1).Draw(rt, "inst"), Cycles: cy}
 		}), 2, 40).Draw(rt, "schedule")
+		cas.Lazy = rapid.SliceOfN(rapid.Bool(), n, n).Draw(rt, "lazy")
 		info, sig, err := c25Run(cas)
 		class := fmt.Sprintf("interleave-%d-instances", n)
+		for _, l := range cas.Lazy {
+			if l {
+				c.Class("interleave-instance-created-while-others-run", 1)
+				break
+			}
+		}
 		c.Case(class, vf.Hash(cas), info.Live >= 2 && info.Switches >= 3, func() interface{} { return cas })
 		if err != nil {
 			if !c.Fail("interleave", sig, err.Error(), cas) {
